@@ -589,14 +589,101 @@ def stream_fresh(ctx, res):
 
 
 # ------------------------------------------------------------------------------------------------
+# ------------------------------------------------------------------------------------------------ F
+def attr_components(kind, o):
+    if kind == 0:
+        return [o.x, o.y]
+    if kind == 1:
+        return [o.horizontal, o.vertical]
+    return [o.before, o.after, o.start, o.end]
+
+
+ATTR_PRINT_ORDER = {0: [0, 1], 1: [0, 1], 2: [0, 3, 1, 2]}     # Padding prints before, end, after, start (TTML order)
+
+
+def attr_case(kind, val):
+    """to_xml_attribute of a Point / Stretch / Padding, from_xml_attribute of the result, to_xml_attribute again"""
+    obj = [geom.mk_point, geom.mk_stretch, geom.mk_padding][kind](val)
+    cls = [Point, Stretch, Padding][kind]
+    comps = attr_components(kind, obj)
+    p = impl.call(obj.to_xml_attribute)
+    if isinstance(p, Err):
+        return comps, p, None, None
+    b = impl.call(cls.from_xml_attribute, p.v)
+    if isinstance(b, Err):
+        return comps, p, b, None
+    return comps, p, Ok(attr_components(kind, b.v)), impl.call(b.v.to_xml_attribute)
+
+
+def attr_violation(kind, comps, p, b, rp):
+    """statement: printing rounds to two decimals, re-parsing a printed value reproduces it, TTML order -> kind or None"""
+    if isinstance(p, Err):
+        return "attr-print-raises"
+    if p.v != " ".join(str(comps[i]) for i in ATTR_PRINT_ORDER[kind]):
+        return "attr-print-order"
+    if isinstance(b, Err):
+        return "attr-reparse-raises"
+    for a, z in zip(comps, b.v):
+        va, vz = exact(a.value), exact(z.value)
+        if a.unit != z.unit or abs(va - vz) > Fraction(1, 200) + abs(va) * Fraction(1, 2**51):
+            return "attr-reparse"
+    if not (isinstance(rp, Ok) and rp.v == p.v):
+        return "attr-reprint"
+    return None
+
+
+def stream_attr_print(ctx, res):
+    """wave 7: Point / Stretch / Padding.to_xml_attribute and from_xml_attribute of the printed attribute, against the model
+    (request 1820: point_attr / stretch_attr / padding_attr and point_of_attr / stretch_of_attr / padding_from_attr)"""
+    rng = ctx.rng
+    cases = []
+    sz = lambda: geom.rand_size(rng, wild=rng.random() < 0.3)  # noqa: E731
+    # every pair / quadruple of distinct units once, then random values
+    for u in range(5):
+        for v in range(5):
+            cases.append((rng.choice([0, 1]), ((1.005 + u, u), (2.675 + v, v))))
+    cases.append((2, ((1, 0), (2, 1), (3, 2), (4, 3))))
+    for mask in range(16):
+        cases.append((2, tuple(None if mask >> i & 1 else (i + 1.125, 2) for i in range(4))))
+    for _ in range(ctx.n(1500, 30000)):
+        kind = rng.choice([0, 1, 2, 2])
+        if kind == 2:
+            cases.append((2, tuple(None if rng.random() < 0.1 else sz() for _ in range(4))))
+        else:
+            cases.append((kind, (sz(), sz())))
+    reqs = [(1820, [k, geom.a_padding_w(v) if k == 2 else geom.a_pair_w(v)]) for k, v in cases]
+    hist = {}
+    for (kind, val), m in zip(cases, oracle_batch(reqs)):
+        res["evaluations"] += 1
+        comps, p, b, rp = attr_case(kind, val)
+        name = ["Point", "Stretch", "Padding"][kind]
+        bad = attr_violation(kind, comps, p, b, rp)
+        if bad:
+            res["violations"].append({"kind": bad, "replay": "attr", "input": [kind, val], "impl_obs": repr((p, b, rp))[:400],
+                                      "what": f"{name}{val!r}: to_xml_attribute -> {p!r}, from_xml_attribute of it -> "
+                                              f"{b!r}, printed again -> {rp!r}: not 'before end after start' / 'x y' in two "
+                                              f"decimals that re-parse to the value within 1/200 and print the same"})
+            continue
+        hist[name] = hist.get(name, 0) + 1
+        if any(exact(c.value) * 100 % 1 for c in comps):
+            res["nontrivial"].add(("attr", kind, repr(val)))
+        mstr, mres = m
+        mm = r_result(mres, lambda v: [[Fraction(x[0][0], x[0][1]), x[1]] for x in v])
+        if mstr != p.v or not same_sizes(mm, Ok([geom.w_size(z) for z in b.v])):
+            res["disagreements"].append({"stream": "attr-print", "input": [kind, repr(val)], "impl": repr((p.v, b))[:300],
+                                         "model": repr((mstr, mm))[:300]})
+    res["distribution"]["attribute_print_reparse_cases(to_xml_attribute -> from_xml_attribute -> to_xml_attribute)"] = hist
+
+
 def run(ctx):
     res = {"evaluations": 0, "nontrivial": set(), "violations": [], "disagreements": [], "distribution": {},
-           "streams": 5, "notes": []}
+           "streams": 6, "notes": []}
     stream_parse(ctx, res)
     stream_print(ctx, res)
     stream_eq(ctx, res)
     stream_attr(ctx, res)
     stream_fresh(ctx, res)
+    stream_attr_print(ctx, res)
     res["rule"] = ("parse: exhaustive short strings over the alphabet %r + structured long strings (no exclusion), non-trivial = "
                    "accepted; print: value grid + random non-negative binary64 values up to 1e23 x 5 units and every value "
                    "parsed in stream A, non-trivial = not a multiple of 0.01; eq: pairs over a grid exhaustive in units/alignments/"
@@ -611,6 +698,7 @@ def run(ctx):
                     "Size.from_string accepts exactly the size language (ALL strings) and returns the denoted value; else the syntax error",
                     "printing: within 1/200, <= 2 decimals (canonical form: information); parse(print(a)) = round2(a); print o parse o print = print",
                     "padding shorthand expands in TTML order",
+                    "Point / Stretch / Padding: from_xml_attribute(to_xml_attribute(v)) = v rounded to two decimals per component, in its own slot (TTML order), and prints the same again",
                     "relativize / fit keep the components they do not recompute (definitional lemmas about the model)"],
         "correspondence_only": ["the regex engine / float() / round() / f-string formatting behind from_string and __str__",
                                 "binary64: values beyond 1.8e308 become inf (known finding C18-parse-overflow); NaN / negative values not generated",
@@ -651,6 +739,12 @@ def replay(ctx, rec):
             return True, o
         ok = oracle1(1809, [wire_val(a), wire_val(b)] + list(o))
         return ok != 1, o
+    if tag == "attr":
+        def t(y):
+            return tuple(t(z) for z in y) if isinstance(y, list) else y
+        kind, val = rec["input"]
+        comps, p, b, rp = attr_case(kind, t(val))
+        return attr_violation(kind, comps, p, b, rp) == rec.get("kind"), repr((p, b, rp))[:300]
     if tag == "padding":
         o = obs_padding(rec["input"])
         return oracle1(1807, [rec["input"], o]) != 1, repr(o)
